@@ -342,3 +342,21 @@ Print Assumptions C01_build_parse_sound_any.
 Print Assumptions C01_build_parse_sound_any_verbose.
 Print Assumptions C01_build_parse_sound_any_ci.
 Print Assumptions C01_build_parse_sound_any_ci_verbose.
+
+(* NON-VACUITY (Proofs/NonVacuity.v, world W2m): the hypotheses of C01_sound_with_merge are
+   satisfiable IN THE WIDENING REGION (no_merge = false): for ["ba","bb"] with repetition
+   conversion the model computes b{1,2}a? (known finding K1: it over-matches) and the theorem
+   applies: both test cases are accepted, for every denotation of literals and classes. *)
+From Grex Require Proofs.NonVacuity.
+Theorem C01_nonvacuous : exists e s,
+  NonVacuity.world_ok NonVacuity.c_W2m NonVacuity.db_W2m SCPass1 NonVacuity.ws_W2m false e s
+  /\ (forall (lit cls : cp -> cp -> Prop) t, In t NonVacuity.ws_W2m ->
+        Spec_str lit cls NonVacuity.c_W2m t t -> L_expr lit cls e t).
+Proof.
+  pose proof NonVacuity.W2m as W. do 2 eexists. split; [exact W|].
+  intros lit cls t Hin Hs.
+  exact (C01_sound_with_merge lit cls _ _ _ _ _ t
+           (NonVacuity.w_nonempty _ _ _ _ _ _ _ W) (NonVacuity.w_oracle _ _ _ _ _ _ _ W)
+           (NonVacuity.w_expr _ _ _ _ _ _ _ W) Hin (or_intror NonVacuity.W2m_K4) Hs).
+Qed.
+Print Assumptions C01_nonvacuous.
